@@ -70,6 +70,7 @@ func Generate(property, tier string, seed uint64) *Trace {
 			commits = r.Range(2, 12)
 		}
 		tr.EnumCrash = true
+		tr.EnumIOErr = r.Chance(0.35)
 		wQuery, wLoad, wReopen = 0, 1, 0
 	case "C14":
 		wQuery = 12
@@ -246,10 +247,16 @@ func executeEnum(tr *Trace) (*core.Result, error) {
 		}
 		n := counts[ord]
 		ord++
-		for k := 0; k < n; k++ {
+		variants := 1
+		if tr.EnumIOErr {
+			variants = 2
+		}
+		for kv := 0; kv < n*variants; kv++ {
+			k := kv % n
 			c := base.Clone()
 			kk := k
 			c.Steps[si].Crash = &kk
+			c.Steps[si].IOErr = kv >= n
 			r, err := execute(c)
 			if err != nil {
 				return nil, err
